@@ -3,7 +3,7 @@
 (* observation of the implementation must satisfy the reference semantics  *)
 (* of the case's kind.  All lines are judged; the set of rejected line     *)
 (* numbers is printed at the end ("BAD" line) - TLC decides every case.    *)
-EXTENDS TextMatch, ReMatch, Cond, ArenaFile, Limits, Json, IOUtils, TLC
+EXTENDS TextMatch, ReMatch, Cond, ArenaFile, Limits, FieldMut, Json, IOUtils, TLC
 AL == INSTANCE ApiLifecycle WITH comp <- 0, rules <- 0, scanner <- 0, armed <- 0, history <- 0
 HR == INSTANCE HashRange WITH KeyWithAlg <- TRUE, KeyIsArgs <- TRUE, cache <- 0, last <- 0, ncalls <- 0
 
@@ -25,6 +25,7 @@ CaseOK(c) ==
     [] c.kind = "limit" -> LimitOK(c)
     [] c.kind = "recovered" -> RecoveredOK(c)
     [] c.kind = "timeout" -> TimeoutOK(c)
+    [] c.kind = "modscan" -> ModScanOK(c)
     [] OTHER -> FALSE
 
 \* disagreements that carry the signature of a recorded known finding (decided from the case, spec side)
